@@ -499,6 +499,134 @@ def fn_contexts(items):
             check('gate.copy-after-compile', g2.copy(), d)
     return {'n': n, 'nt': nt, 'viol': viol}
 
+def fn_sequences(items):
+    """item = [N, [[name, qubits], ...]]: a short sequence of named gates taken into a CliffordCircuit / Circuit
+    (plain and compiled), forward and backward on the whole Pauli group: the action must be conjugation by the
+    ordered product of the textbook unitaries (layer packing must respect every shared qubit, for CNOT in either
+    orientation)."""
+    n = nt = 0
+    viol = []
+    pc = lib.pc
+    for item in items:
+        N, seq = item
+        U = np.eye(2 ** N, dtype=complex)
+        for name, qs in seq:
+            U = unitary(name, qs, N, make_gate(name, qs)) @ U
+        Ud = U.conj().T
+        G = ref.all_g(N)
+        if N <= 3:
+            gs_in, ps_in = np.concatenate([G] * 2), np.repeat(np.array([0, 3]), len(G))
+        else:
+            sel = [i for i in range(len(G)) if ref.weight(G[i]) == 1] + list(range(1, len(G), 37))
+            gs_in, ps_in = G[sel], np.arange(len(sel)) % 4
+        label = ' ; '.join('%s(%s)' % (nm, ','.join(map(str, qs))) for nm, qs in seq)
+        for ccls, mk in (('CliffordCircuit', lambda: pc.identity_circuit(N)), ('Circuit', lambda: pc.Circuit(N))):
+            for how in ('plain', 'compiled'):
+                for d in ('forward', 'backward'):
+                    c = mk()
+                    for name, qs in seq:
+                        c.take(make_gate(name, qs))
+                    if how == 'compiled':
+                        c.compile()
+                    lst = lib.PL(gs_in, ps_in)
+                    getattr(c, d)(lst)
+                    og, op = np.asarray(lst.gs).astype(np.int64), np.asarray(lst.ps).astype(np.int64) % 4
+                    n += len(gs_in)
+                    nt += len(gs_in)
+                    for k in range(len(gs_in)):
+                        want = (U @ ref.mat(gs_in[k], ps_in[k]) @ Ud) if d == 'forward' else (Ud @ ref.mat(gs_in[k], ps_in[k]) @ U)
+                        if not np.allclose(ref.mat(og[k], op[k]), want, atol=1e-9):
+                            viol.append(V('C11/sequence/%s,%s/%s' % (ccls, how, d), item, 'N=%d: %s as %s (%s): %s sends %s to %s, not conjugation by the ordered product of the textbook gates' % (
+                                N, label, ccls, how, d, ref.g_to_str(gs_in[k], ps_in[k]), ref.g_to_str(og[k], op[k]))))
+                            break
+    return {'n': n, 'nt': nt, 'viol': viol}
+
+
+def fn_fresh(items):
+    """item = [N, name, qubits]: a named gate is built and its maps are edited in place (masked transform_by by another
+    gate, rotate_by, embed, direct array write); EVERY named gate built afterwards must still be the textbook gate
+    (tables handed out without a copy show up here)."""
+    n = nt = 0
+    viol = []
+    pc = lib.pc
+    for item in items:
+        N, name, qs = item
+        qs = [int(q) for q in qs]
+        G = ref.all_g(N)
+        gs_in, ps_in = np.concatenate([G] * 2), np.repeat(np.array([0, 1]), len(G))
+        others = [(nm, [q]) for nm in SINGLES + ('C7', 'C22') for q in range(N)]
+        if N >= 2:
+            others += [('CNOT', [a, b]) for a in range(N) for b in range(N) if a != b]
+        t1, s1 = dom.valid_maps(1)[9]
+        edits = []
+        if len(qs) == 2:
+            edits.append(('H(%d).forward(map)' % qs[1], lambda m: pc.H(1).forward(m) if m.N == 2 else None))
+        edits += [('rotate_by', lambda m: m.rotate_by(lib.P([1, 1] + [0, 0] * (m.N - 1), 0))),
+                  ('embed', lambda m: m.embed(lib.CM(t1, s1), np.array([True] + [False] * (m.N - 1)))),
+                  ('array-write', lambda m: (m.gs.__setitem__(Ellipsis, 1 - m.gs), m.ps.__setitem__(Ellipsis, (m.ps + 2) % 4)))]
+        for enm, ed in edits:
+            for which in ('forward_map', 'backward_map'):
+                g0 = make_gate(name, qs)
+                if which == 'backward_map':
+                    g0.backward(lib.PL(gs_in, ps_in))       # derives the backward map lazily
+                m = getattr(g0, which, None)
+                if m is None:
+                    continue
+                try:
+                    ed(m)
+                except Exception:
+                    continue
+                for onm, oq in others:
+                    g1 = make_gate(onm, oq)
+                    U = unitary(onm, oq, N, g1 if not onm.startswith('C') or onm == 'CNOT' else None) if not (onm.startswith('C') and onm != 'CNOT') else None
+                    if U is None:
+                        # indexed gates: compared with the table captured from the independently enumerated 24 maps (leg c24_group owns their identity)
+                        k = int(onm[1:])
+                        tg, tp = _C_TABLES()[k]
+                        fm = g1.forward_map
+                        okc = np.array_equal(np.asarray(fm.gs), tg) and np.array_equal(np.asarray(fm.ps) % 4, tp)
+                        n += 1
+                        nt += 1
+                        if not okc:
+                            viol.append(V('C11/fresh-after-edit/%s/%s' % (gate_class(onm, oq), enm.split('(')[0]), item, 'N=%d: after %s on the %s of an earlier %s(%s), a new %s(%s) has a different table' % (
+                                N, enm, which, name, ','.join(map(str, qs)), onm, ','.join(map(str, oq)))))
+                            break
+                        continue
+                    Ud = U.conj().T
+                    bad = None
+                    for d in ('forward', 'backward'):
+                        lst = lib.PL(gs_in, ps_in)
+                        getattr(g1, d)(lst)
+                        og, op = np.asarray(lst.gs).astype(np.int64), np.asarray(lst.ps).astype(np.int64) % 4
+                        n += len(gs_in)
+                        nt += len(gs_in)
+                        for k in range(len(gs_in)):
+                            want = (U @ ref.mat(gs_in[k], ps_in[k]) @ Ud) if d == 'forward' else (Ud @ ref.mat(gs_in[k], ps_in[k]) @ U)
+                            if not np.allclose(ref.mat(og[k], op[k]), want, atol=1e-9):
+                                bad = (d, k, og[k], op[k])
+                                break
+                        if bad:
+                            break
+                    if bad:
+                        viol.append(V('C11/fresh-after-edit/%s/%s' % (gate_class(onm, oq), enm.split('(')[0]), item, 'N=%d: after %s on the %s of an earlier %s(%s), a new %s(%s).%s sends %s to %s' % (
+                            N, enm, which, name, ','.join(map(str, qs)), onm, ','.join(map(str, oq)), bad[0], ref.g_to_str(gs_in[bad[1]], ps_in[bad[1]]), ref.g_to_str(bad[2], bad[3]))))
+                        break
+    return {'n': n, 'nt': nt, 'viol': viol}
+
+
+_CT = {}
+
+
+def _C_TABLES():
+    """tables of C(0..23) captured once per process from fresh gates BEFORE any edit of this leg (their identity with the
+    independently enumerated 24 maps is decided by leg c24_group)."""
+    if not _CT:
+        for k in range(24):
+            fm = lib.pc.C(k, 0).forward_map
+            _CT[k] = (np.array(fm.gs).copy(), np.array(fm.ps).copy() % 4)
+    return _CT
+
+
 def legs(tier):
     out = []
     Ns = (1, 2, 3, 4)
@@ -512,6 +640,21 @@ def legs(tier):
     citems = [it for it in items if it[0] <= 3 or it[1] == 'CNOT']
     out.append(Leg('contexts', fn_contexts, citems, chunk=2,
                    bound='every placement of N<=3 (and every CNOT placement of N=4): the gate inside CliffordCircuit / Circuit plain, layer-compiled, circuit-compiled, copy of compiled circuit, gate copies (fresh, after backward, after compile), forward and backward, whole Pauli group'))
+    two = {N: [('CNOT', [a, b]) for a in range(N) for b in range(N) if a != b] for N in (2, 3, 4)}
+    sq = []
+    for N in (2, 3):
+        one = [(nm, [q]) for nm in ('H', 'S') for q in range(N)]
+        sq += [[N, [list(a), list(b)]] for a in two[N] for b in two[N]]
+        sq += [[N, [list(a), list(b), list(c)]] for a in one + two[N] for b in two[N] for c in two[N]]
+    sq += [[4, [list(a), list(b)]] for a in two[4] for b in two[4]]
+    if tier != 'quick':
+        sq += [[4, [list(a), list(b), list(c)]] for a in [('H', [0]), ('S', [3])] + two[4] for b in two[4] for c in two[4]]
+    out.append(Leg('sequences', fn_sequences, sq, chunk=8,
+                   bound='all ordered pairs of CNOT placements (both orientations) at N=2,3,4 and all triples (H/S/CNOT ; CNOT ; CNOT) at N=2,3%s inside CliffordCircuit / Circuit, plain and compiled, forward and backward' % ('' if tier == 'quick' else ' and N=4')))
+    _C_TABLES()
+    fitems = [it for it in items if it[0] <= 2 and not (it[1].startswith('C') and it[1] != 'CNOT' and int(it[1][1:]) % 6)] + [[3, 'CNOT', [2, 0]], [3, 'H', [1]]]
+    out.append(Leg('fresh_after_edit', fn_fresh, fitems, chunk=2,
+                   bound='N<=2 (every named gate placement, every 6th C(k)) and two N=3 placements: the forward / backward map of one gate edited in place (another gate applied to the map, rotate_by, embed, array write), then every named gate built again and compared with the textbook action'))
     out.append(Leg('states_N1', fn_states, [[1, i] for i in range(48)], chunk=4, src_states=48,
                    bound='all 48 tableaux x %d gate placements' % len(gates_of(1))))
     out.append(Leg('states_N2', fn_states, [[2, i] for i in range(34560)], chunk=60, src_states=34560,
